@@ -466,7 +466,8 @@ def radial_ode_setup(chk):
             cc["grid.ode.solve_ode_bvp"] = ode
             cc["grid.ode.solve_ode_ivp"] = ode
             cc["grid.atomgrid.AtomGrid.convert_cartesian_to_spherical"] = lambda e, f, a, k: I.Arr((NE, 3), lambda j, c: SPHC(T.zi(j), T.zi(c)), "real")
-            cc["grid.utils.generate_real_spherical_harmonics"] = lambda e, f, a, k: I.Arr(((T.zi(a[0]) + 1) * (T.zi(a[0]) + 1), NE), lambda row, j: YH(T.zi(row), T.zi(j)), "real")
+            cc["grid.utils.generate_real_spherical_harmonics"] = lambda e, f, a, k: I.Arr(
+                (((LH + 1) * (LH + 1)) if e.proves(T.zi(a[0]) == LH) else (T.zi(a[0]) + 1) * (T.zi(a[0]) + 1), NE), lambda row, j: YH(T.zi(row), T.zi(j)), "real")
             cc["grid.basegrid.Grid.integrate"] = lambda e, f, a, k: z3.Real("total_charge")
             tf = I.Opaque("transform", domain=(Fr0, T.INF))
 
@@ -602,7 +603,7 @@ def radial_ode_setup(chk):
             rj = SPHC(j0, 0)
             ps = framework.PrefixSum(f"potential_{solver}", (lambda row: UV(T.zi(row), j0) / rj * YH(T.zi(row), j0)) if solver == "bvp" else (lambda row: UV(T.zi(row), j0) * YH(T.zi(row), j0)))
             term = T.resolve_ites(T.zr(out.fn(j0)), hy)
-            eqs = [framework.match_sum(chk, f"_solve_poisson_{solver}_atomgrid/recombination", app, ps, 0, L - 1, hy, func=fq, meta={"replay": rep}, assumptions=asm)
+            eqs = [framework.match_sum(chk, f"_solve_poisson_{solver}_atomgrid/recombination", app, ps, 0, L - 1, hy, func=fq, meta={"replay": rep}, assumptions=asm, toplevel=True)
                    for app in framework.find_sites(term)]
             chk.add(f"_solve_poisson_{solver}_atomgrid/post/potential-is-the-sum-over-rows-of-{'u/r' if solver == 'bvp' else 'the-solution'}-times-the-harmonic", hy + eqs + ps.unfold(),
                     z3.And(z3.BoolVal(out.ndim == 1), T.zi(out.shape[0]) == NE, term == ps.P(T.zi(L))), func=fq, meta={"replay": rep}, assumptions=asm)
